@@ -390,6 +390,18 @@ type KLMWrap struct {
 	Last map[local.Key]AbsLocation
 	Puts atomic.Int64
 	hist []local.Key
+	// ParkAt, when n > 0, makes the n-th next Get pass the gate point
+	// "klm.get" before it looks the key up (it is then inside the caller's
+	// critical section: a lookup runs under the store's read lock).
+	ParkAt atomic.Int64
+	gate   *Gate
+}
+
+func (k *KLMWrap) Get(key local.Key) (local.Location, error) {
+	if k.gate != nil && k.ParkAt.Load() > 0 && k.ParkAt.Add(-1) == 0 {
+		k.gate.Pass("klm.get")
+	}
+	return k.KeyLocationMap.Get(key)
 }
 
 // KeysSince returns the keys stored by the Put calls numbered n, n+1, …
@@ -791,7 +803,7 @@ func Build(c Config, m *Media) (*Store, error) {
 		arr = local.NewBlockDeviceBackedLocationRecordArray(m.Index, s.LBM)
 	}
 	klm := local.NewHashingKeyLocationMap(arr, c.TableSize(), s.HashInit, c.GetAttempts, c.PutAttempts, label)
-	s.KLM = &KLMWrap{KeyLocationMap: klm, log: s.Log, pops: &s.BL.Pops, Last: map[local.Key]AbsLocation{}}
+	s.KLM = &KLMWrap{KeyLocationMap: klm, log: s.Log, pops: &s.BL.Pops, Last: map[local.Key]AbsLocation{}, gate: s.Gate}
 
 	if c.Hierarchical {
 		s.BA = local.NewHierarchicalCASBlobAccess(s.KLM, s.LBM, s.Lock, nil)
